@@ -10,7 +10,7 @@ def seeded():
                                             m.get('detection', '').replace('|', '/')))
     return '| id | change | needs | which check catches it |\n|---|---|---|---|\n' + '\n'.join(rows)
 def fixes():
-    f = json.load(open(V + '/known_findings.json'))['findings']
+    f = [x for x in json.load(open(V + '/known_findings.json'))['findings'] if x.get('status') == 'fixed']
     return '\n'.join('* `%s` (%s) — %s' % (x['commit'], x['property'] + ('; also ' + ', '.join(x['also_affects']) if x.get('also_affects') else ''), x['line'].split(x['commit'], 1)[1].strip()) for x in f)
 def theorems():
     out = []
